@@ -206,11 +206,23 @@ func (ch c16) runForced(c *core.Ctx, s c16sched, idx int) {
 	e := &c16env{gateParser: make(chan struct{}), gateStmt: make(chan struct{}), entered: make(chan string, 8)}
 	wire.VerifSetHook(h.fn)
 	defer wire.VerifSetHook(nil)
-	env := hs.Start(ch.parseFn(e))
+	// a third of the schedules: the client has said goodbye right behind its command (Terminate in the same
+	// segment) and the server has a terminate hook that takes a moment
+	goodbye := idx%3 == 1 && (s.State == "inparser" || s.State == "instmt")
+	env := hs.Start(ch.parseFn(e), wire.TerminateConn(func(ctx context.Context) error {
+		for i := 0; i < 200; i++ {
+			runtime.Gosched()
+		}
+		time.Sleep(2 * time.Millisecond)
+		return nil
+	}))
 	cl := hs.NewClient(env.Dial(nil))
 	if err := cl.StartupOK("u"); err != nil {
 		viol("startup", "startup failed", err.Error())
 		return
+	}
+	if goodbye {
+		c.Count("terminate_pipelined_behind_the_command_in_flight", 1)
 	}
 	// the message that will be in flight
 	msgFor := func(q string) []byte {
@@ -268,7 +280,11 @@ func (ch c16) runForced(c *core.Ctx, s c16sched, idx int) {
 		}
 		c.Count("close_overlaps_admission", 1)
 	case "inparser":
-		cl.C.Send(msgFor("gateparser"))
+		if goodbye {
+			cl.C.Send(append(msgFor("gateparser"), pg.Terminate()...))
+		} else {
+			cl.C.Send(msgFor("gateparser"))
+		}
 		if !wait("parser", e.entered) {
 			return
 		}
@@ -277,7 +293,11 @@ func (ch c16) runForced(c *core.Ctx, s c16sched, idx int) {
 		if s.Kind == "parse" { // Parse alone never runs the statement: use Execute
 			s.Kind = "exec"
 		}
-		cl.C.Send(msgFor("gatestmt"))
+		if goodbye {
+			cl.C.Send(append(msgFor("gatestmt"), pg.Terminate()...))
+		} else {
+			cl.C.Send(msgFor("gatestmt"))
+		}
 		if !wait("statement", e.entered) {
 			return
 		}
